@@ -162,12 +162,15 @@ impl MetricSink for GatedSink {
             // harness, the oracle reports it
             let outcome = match g.caller_outcome {
                 Some(StepOut::Err(k)) => StepOut::Err(k),
+                Some(StepOut::Panic) => StepOut::Panic,
                 _ => StepOut::Ok,
             };
             g.exited += 1;
             g.log.push(Ev::Exit { seq, outcome });
+            drop(g);
             return match outcome {
                 StepOut::Err(k) => Err(util::token_error(k, seq as u64)),
+                StepOut::Panic => panic!("{} (wrapped sink, metric #{}, run on a caller's thread)", HARNESS_PANIC, seq),
                 _ => Ok(metric.len()),
             };
         }
